@@ -11,6 +11,7 @@ open C06TrexModel
 open C06TimingModel
 open C06SinfModel
 open C06MultiModel
+open C06FixedModel
 
 let e = C07Aes.aes128_encrypt
 let d = C07Aes.aes128_decrypt
@@ -350,6 +351,11 @@ let () =
         let box = bytes_of_hex data in
         let model = S.concat "|" (L.map (fun p -> res_string senc_state (senc_parse (n_of_int p) box)) [0; 8; 16; 5]) in
         check id "DecodeSenc + ParseReadBox" model obs
+      | ["Y"; id; kind; entry; obs] ->
+        let k = if kind = "v" then SVisual else SAudio in
+        let model = res_string (fun (b, sd) -> hex_of_bytes b ^ "|" ^ sinf_d_string sd)
+            (unprotect_entry_typed k (bytes_of_hex entry)) in
+        check id "sample entry typed fields + RemoveEncryption + Encode" model obs
       | ["H"; id; moofstart; children; mdatstart; di; key; obs] ->
         let nn s = n_of_int (int_of_string s) in
         let lst s = if s = "-" then [] else list_of s in
